@@ -93,6 +93,19 @@ def fillBounds {α : Type} (dflt : α × α) (bounds : List (String × (α × α
     List (α × α) :=
   names.map fun n => (bounds.lookup n).getD dflt
 
+/-- the boxes `LocalScipyMinimizer` hands to scipy, one per entry of `p0` (a bound may be `None`): the caller's box for a
+name that has one; otherwise the default box — with `onlyIfInside` (read from the source) only when the START VALUE lies in
+it, and no box at all (`(None, None)`) when it does not, so that no start value is ever moved onto a box the caller did not
+ask for -/
+def fillBoundsLocal {α : Type} [LE α] [DecidableLE α] (onlyIfInside : Bool) (dflt : α × α)
+    (bounds : List (String × (α × α))) (p0 : List (String × α)) : List (Option α × Option α) :=
+  p0.map fun nv =>
+    match bounds.lookup nv.1 with
+    | some b => (some b.1, some b.2)
+    | none =>
+      if !onlyIfInside || (decide (dflt.1 ≤ nv.2) && decide (nv.2 ≤ dflt.2)) then (some dflt.1, some dflt.2)
+      else (none, none)
+
 /-- the tail of `fit.steady_state` / `time_course` / `protocol_time_course`:
 `match minimizer(fn, p0, bounds).value: case OptimisationState(parameters, residual): Fit(...)`. -/
 def fitWrap {α : Type} (minimizer : (List (String × α) → α) → List (String × α) → Option (OptState α))
